@@ -60,13 +60,19 @@ type cpVec struct {
 	BCh [][]int    `json:"bch"`
 }
 
-var cpLetters = []string{"a", "é"}
+// the abstract letter of the spec, concretised: ASCII, two bytes, the replacement character itself (valid UTF-8, decodes to
+// utf8.RuneError like an invalid byte does), a byte that is not UTF-8 (the lexer reads runes: in a comment's text it comes
+// back as U+FFFD, cpTextLetters)
+var cpLetters = []string{"a", "é", "\uFFFD", "\xff"}
+var cpTextLetters = []string{"a", "é", "\uFFFD", "\uFFFD"}
 
-func cpConc(chars []string, variant int) string {
+func cpConc(chars []string, variant int) string { return cpConcWith(chars, cpLetters[variant]) }
+
+func cpConcWith(chars []string, letter string) string {
 	var sb strings.Builder
 	for _, c := range chars {
 		if c == "a" {
-			sb.WriteString(cpLetters[variant])
+			sb.WriteString(letter)
 		} else {
 			sb.WriteString(c)
 		}
@@ -101,12 +107,28 @@ func cpParse(src []byte, lang language.Language) (coms []cpReal, chunks [][]int,
 			r.coms = append(r.coms, cpReal{c.StartLine, c.EndLine, c.Text})
 			idx[c] = i + 1
 		}
+		parsed := append(Comments(nil), cs...)
+		intruder := &Comment{StartLine: -1, EndLine: -1, Text: "written by the consumer"}
 		for chunk := range cs.ChunkIterator() {
 			var ids []int
 			for _, c := range chunk {
-				ids = append(ids, idx[c])
+				ids = append(ids, idx[c]) // 0: not one of the parsed comments
 			}
 			r.chunks = append(r.chunks, ids)
+			// a received chunk is the consumer's: it appends to it and uses whatever capacity it has
+			for full, i := chunk[:cap(chunk)], len(chunk); i < len(full); i++ {
+				full[i] = intruder
+			}
+			chunk = append(chunk, intruder)
+			if len(chunk) > 1 {
+				chunk[0] = intruder
+			}
+		}
+		for i := range parsed {
+			if i >= len(cs) || cs[i] != parsed[i] {
+				r.fault = fmt.Sprintf("what the consumer did with the chunks it received changed the Comments value returned by Parse (element %d)", i)
+				break
+			}
 		}
 	}()
 	select {
@@ -122,7 +144,7 @@ func cpSame(real []cpReal, exp []cpCom, variant int, unterminated bool) bool {
 		return false
 	}
 	for i, e := range exp {
-		if real[i].SL != e.SL || real[i].EL != e.EL || real[i].Text != cpConc(e.T, variant) {
+		if real[i].SL != e.SL || real[i].EL != e.EL || real[i].Text != cpConcWith(e.T, cpTextLetters[variant]) {
 			return false
 		}
 	}
